@@ -24,7 +24,9 @@ TRUSTED_BASE = [
     'axioms admitted: propext, Classical.choice, Quot.sound (audited with #print axioms on every run); '
     'no sorry/admit/native_decide/bv_decide/own axioms (grepped on every run)',
     'harness/translate.py: regenerates Generated/*.lean (field tables, MSG_CLASS, dispatch trees, converter '
-    'shapes and tabulations, constants) from the current pyais source on every run',
+    'shapes and tabulations, constants) from the current pyais source on every run; harness/translate_fn.py renders '
+    'the straight-line integer functions (comm-state extraction and classification) statement by statement into '
+    'Generated/Funcs.lean',
     'correspondence check (harness/impl.py vs lean/Driver.lean): differential execution of the hand-written '
     'model parts against the real pyais on generated inputs; reach bounded by the generators',
     'CPython semantics of the primitives modelled in lean/PyaisVerif/Py/Basic.lean; attrs, bitarray',
